@@ -32,6 +32,9 @@ type cfg struct {
 	stream, post []reqSpec
 	flushAt      int
 	restartDelay int
+	// twoTLBs: two translation providers interleaved by virtual page; singleMem: one memory module instead of two
+	// interleaved by physical page (the builder's other mapper types)
+	twoTLBs, singleMem bool
 }
 
 // frame is the (non-identity) page table of the environment.
@@ -63,10 +66,22 @@ func body(c cfg) explore.Body {
 		w := world.New(x, 500)
 		const reqName, ctlName, tlbName = sim.RemotePort("Env.Req"), sim.RemotePort("Env.Ctl"), sim.RemotePort("Env.TLB")
 		mems := []sim.RemotePort{"Env.Mem0", "Env.Mem1"}
-		at := addresstranslator.MakeBuilder().WithEngine(w.Engine).WithFreq(w.Freq).
-			WithNumReqPerCycle(c.width).WithLog2PageSize(c.log2Page).WithDeviceID(3).
-			WithTranslationProvider(tlbName).
-			WithMemoryProviderType("interleaved").WithMemoryProviders(mems...).Build("AT")
+		tlbs := []sim.RemotePort{tlbName}
+		ab := addresstranslator.MakeBuilder().WithEngine(w.Engine).WithFreq(w.Freq).
+			WithNumReqPerCycle(c.width).WithLog2PageSize(c.log2Page).WithDeviceID(3)
+		if c.twoTLBs {
+			tlbs = []sim.RemotePort{"Env.TLB0", "Env.TLB1"}
+			ab = ab.WithTranslationProviderMapperType("interleaved").WithTranslationProviders(tlbs...)
+		} else {
+			ab = ab.WithTranslationProvider(tlbName)
+		}
+		if c.singleMem {
+			mems = mems[:1]
+			ab = ab.WithMemoryProviderType("single").WithMemoryProviders(mems...)
+		} else {
+			ab = ab.WithMemoryProviderType("interleaved").WithMemoryProviders(mems...)
+		}
+		at := ab.Build("AT")
 		top, bot, tr, ctl := at.GetPortByName("Top"), at.GetPortByName("Bottom"), at.GetPortByName("Translation"), at.GetPortByName("Control")
 		w.NewWire("wire", top, bot, tr, ctl)
 		pageSize := uint64(1) << c.log2Page
@@ -143,7 +158,7 @@ func body(c cfg) explore.Body {
 			}
 			match.fwd = req
 			byFwd[req.Meta().ID] = match
-			wantDst := mems[(req.GetAddress()/pageSize)%2]
+			wantDst := mems[(req.GetAddress()/pageSize)%uint64(len(mems))]
 			if m.Meta().Dst != wantDst {
 				fail("forward-wrong-memory-module", "paddr %x sent to %s want %s", req.GetAddress(), m.Meta().Dst, wantDst)
 			}
@@ -213,8 +228,8 @@ func body(c cfg) explore.Body {
 				fail("translation-port-non-request", "%T", m)
 				return
 			}
-			if t.VAddr%pageSize != 0 && false {
-				fail("translation-unaligned", "vaddr %x", t.VAddr)
+			if want := tlbs[(t.VAddr/pageSize)%uint64(len(tlbs))]; m.Meta().Dst != want {
+				fail("translation-sent-to-wrong-provider", "lookup of vaddr %x sent to %s, the mapper gives %s", t.VAddr, m.Meta().Dst, want)
 			}
 		})
 
@@ -236,7 +251,7 @@ func body(c cfg) explore.Body {
 		trSink.Handle = func(m sim.Msg) {
 			t := m.(*vm.TranslationReq)
 			page := vm.Page{PID: t.PID, VAddr: t.VAddr &^ (pageSize - 1), PAddr: frame(t.PID, t.VAddr&^(pageSize-1), c.log2Page), PageSize: pageSize, Valid: true, DeviceID: t.DeviceID}
-			tlbF.Add(vm.TranslationRspBuilder{}.WithSrc(tlbName).WithDst(tr.AsRemote()).WithRspTo(t.ID).WithPage(page).Build(), true)
+			tlbF.Add(vm.TranslationRspBuilder{}.WithSrc(m.Meta().Dst).WithDst(tr.AsRemote()).WithRspTo(t.ID).WithPage(page).Build(), true)
 		}
 		memF := &world.Feeder{W: w, Port: bot, Tag: "mem", Reorder: true, DelayAlphabet: []int{2, 6}}
 		nMem := 0
@@ -366,6 +381,12 @@ func main() {
 			add(fmt.Sprintf("page2^%d/width%d/noflush", lp, wd), cfg{width: wd, log2Page: lp, stream: st}, bound-1)
 		}
 	}
+	// the builder's other mapper types
+	for si, st := range streams[:2] {
+		add(fmt.Sprintf("stream%d/width2/two-tlbs", si), cfg{width: 2, log2Page: 12, stream: st, twoTLBs: true}, bound-1)
+		add(fmt.Sprintf("stream%d/width2/single-memory", si), cfg{width: 2, log2Page: 12, stream: st, singleMem: true}, bound-1)
+	}
+	add("page2^16/width2/two-tlbs+single-memory", cfg{width: 2, log2Page: 16, stream: []reqSpec{{false, 1<<16 | 0x4, 4, 1, false}, {true, 2<<16 | 0x8008, 4, 1, true}, {false, 3<<16 | 0x40, 64, 2, false}}, twoTLBs: true, singleMem: true}, bound-1)
 	flushPoints := []int{2, 3, 4, 5, 6, 8}
 	if r.Thorough() {
 		flushPoints = []int{1, 2, 3, 4, 5, 6, 7, 8, 9, 10, 12, 14}
